@@ -7,12 +7,13 @@
     * `out`  — the text it writes as a template body.
   A body used as an expression (`blk`) denotes `Markup(concat(buffer))` under autoescape and `concat(buffer)` without:
   that is what a macro call, `caller()`, `super()`, a block reference `self.b()`, a `{% set x %}…{% endset %}` block
-  and a `{% call %}` body return (compiler.py:392-410 `return_buffer_contents`, 1353-1362 `visit_AssignBlock`,
+  a `{% call %}` body and `loop(children)` of a recursive `for` loop return (compiler.py:392-410 `return_buffer_contents`, 1353-1362 `visit_AssignBlock`,
   runtime.py:368-391 `BlockReference.__call__`, 694-789 `Macro`).  An expression used as a body (`emit`) is
   `{{ e }}`: `escape(e)` under autoescape, `str(e)` without (compiler.py:1470-1495 `_output_child_pre`, and the
   compile-time path 1449-1468 which calls the same `escape`).  `bind` passes a value on unchanged: a macro argument,
-  `{% set x = e %}`, a loop variable, an imported name.  Includes, imports, filter blocks without filter and
-  inheritance put bodies in sequence (`seq`).
+  `{% set x = e %}`, a loop variable, an imported name.  Includes, imports and inheritance put bodies in
+  sequence (`seq`).  A filter block `{% filter f(a) %}B{% endfilter %}` is `emit (f (blk B) a)` and a filtered set block
+  `{% set x | f(a) %}B{% endset %}` binds `esc (f (blk B) a)` (compiler.py `visit_FilterBlock`, `visit_AssignBlock`).
 -/
 import JinjaV.Model.Escape
 import JinjaV.Model.HtmlFilt
